@@ -906,7 +906,10 @@ class MultiVector:
 
     @memoize_method
     def __hash__(self):
-        result = hash(self.space)
+        # Only the coefficients, like __eq__: multivectors that compare equal
+        # (the same coefficients in another space, or a scalar and the
+        # multivector made from it) must hash alike.
+        result = 0
         for bits, coeff in self.data.items():
             result ^= hash(bits) ^ hash(coeff)
 
